@@ -138,7 +138,8 @@ fn apply(mut s: StructSpec, k: Knob) -> Option<StructSpec> {
             s.fields[i].map = true
         }
         Knob::Conv(i, c) => {
-            if s.fields[i].conv != Conv::None || s.fields[i].ty != pu8() {
+            // the intermediate type is `P<u8>` or, after `Optional`, `Option<P<u8>>`
+            if s.fields[i].conv != Conv::None || !(s.fields[i].ty == pu8() || s.fields[i].ty == opt(pu8())) {
                 return None;
             }
             s.fields[i].conv = c
@@ -156,7 +157,7 @@ fn apply(mut s: StructSpec, k: Knob) -> Option<StructSpec> {
             s.fields[i].err_b = true
         }
         Knob::Optional(i) => {
-            if s.fields[i].ty != pu8() || s.fields[i].conv != Conv::None {
+            if s.fields[i].ty != pu8() {
                 return None;
             }
             s.fields[i].ty = opt(pu8())
@@ -287,6 +288,9 @@ fn group_a(cat: &mut Catalogue, tier: Tier) {
             (Knob::MissingForeign(0), Knob::MissingFn(1)),
             (Knob::Deny(Deny::CustomForeign), Knob::RenameAll(RenameAll::Camel)),
             (Knob::Deny(Deny::CustomForeign), Knob::Validate),
+            // conversions whose intermediate type is an Option
+            (Knob::Optional(1), Knob::Conv(1, Conv::From { by_ref: false })),
+            (Knob::Optional(0), Knob::Conv(0, Conv::TryFrom { by_ref: true })),
             // a validate function whose error type is the container's own: still handed over
             (Knob::ValidateSame, Knob::Deny(Deny::Default)),
             (Knob::ValidateSame, Knob::Conv(1, Conv::TryFrom { by_ref: false })),
@@ -359,9 +363,6 @@ fn group_b(cat: &mut Catalogue, tier: Tier) {
         for conv in [Conv::None, Conv::From { by_ref: false }, Conv::TryFrom { by_ref: false }] {
             for map in [false, true] {
                 for optional in [false, true] {
-                    if optional && conv != Conv::None {
-                        continue;
-                    }
                     let mut s = base3();
                     s.fields[1].default = d;
                     s.fields[1].conv = conv;
@@ -376,7 +377,7 @@ fn group_b(cat: &mut Catalogue, tier: Tier) {
         }
     }
     // B3: identifier shapes × rename_all
-    for shape in ["a", "my_field", "my__field", "_lead", "trail_", "myField", "MyField", "Éclair", "sha256sum", "ipv4_addr", "field_1", "x2Y"] {
+    for shape in ["a", "my_field", "my__field", "_lead", "trail_", "myField", "MyField", "Éclair", "sha256sum", "ipv4_addr", "field_1", "x2Y", "type_", "ref_", "r#type", "r#match"] {
         for ra in [None, Some(RenameAll::Camel), Some(RenameAll::Lower)] {
             let mut s = st(vec![FieldSpec::plain(shape, pu8()), FieldSpec::plain("zz_other", pu8())]);
             s.rename_all = ra;
@@ -797,6 +798,11 @@ fn group_f(cat: &mut Catalogue, tier: Tier) {
         for n in 0..=3usize {
             cat.root(p(Ty::Arr(b(e), n)), "F", format!("array {n}"));
         }
+        if *e == pu8() {
+            for n in [8usize, 33] {
+                cat.root(p(Ty::Arr(b(e), n)), "F", format!("array {n}"));
+            }
+        }
         cat.root(p(Ty::Tup(vec![e.clone(), p(sc(Scalar::Bool))])), "F", "2-tuple");
         cat.root(p(Ty::Tup(vec![e.clone(), p(sc(Scalar::Str)), e.clone()])), "F", "3-tuple");
         if *hashable {
@@ -966,6 +972,82 @@ fn group_h(cat: &mut Catalogue, tier: Tier) {
         s.concrete = true;
         let i = cat.add(Item::Struct(s));
         cat.root(p(Ty::Item(i)), "H", "struct with error = RecA and validate -> RecA");
+    }
+    // a field-level error type over non-scalar fields, with derived types nested below it
+    {
+        let inner2 = cat.add(Item::Struct(st(vec![FieldSpec::plain("fa_x", pu8()), FieldSpec::plain("fb", pu8())])));
+        let mut mid = st(vec![FieldSpec::plain("items", p(vec_of(p(Ty::Item(inner2))))), FieldSpec::plain("fm", pu8())]);
+        mid.deny = Deny::Default;
+        let mid = cat.add(Item::Struct(mid));
+        let mut outer = st(vec![
+            FieldSpec { err_b: true, ..FieldSpec::plain("deep", p(Ty::Item(mid))) },
+            FieldSpec { err_b: true, ..FieldSpec::plain("list", p(vec_of(pu8()))) },
+            FieldSpec::plain("fz", pu8()),
+        ]);
+        let i = cat.add(Item::Struct(outer.clone()));
+        cat.root(p(Ty::Item(i)), "H", "field-level error type over a nested derived struct and over a Vec");
+        outer.deny = Deny::Default;
+        outer.validate = true;
+        outer.fields[2].conv = Conv::TryFrom { by_ref: false };
+        let i = cat.add(Item::Struct(outer));
+        cat.root(p(Ty::Item(i)), "H", "the same + deny + validate + try_from on a sibling");
+        let t = st(vec![
+            FieldSpec { err_b: true, ..FieldSpec::plain("pair", p(Ty::Tup(vec![pu8(), p(sc(Scalar::Str))]))) },
+            FieldSpec { err_b: true, default: DefaultSpec::Trait, ..FieldSpec::plain("maybe", opt(p(Ty::Item(inner2)))) },
+            FieldSpec { err_b: true, ..FieldSpec::plain("byk", p(Ty::Map { hashed: false, key: KeyTy::U8, val: Box::new(pu8()) })) },
+        ]);
+        let i = cat.add(Item::Struct(t));
+        cat.root(p(Ty::Item(i)), "H", "field-level error type over a tuple, an Option of a struct, a map");
+    }
+    // conversions on a field whose *declared* type is an Option (`Option<Cv>`): the intermediate
+    // type alone decides what the payload may hold (null included), and the function always runs
+    for conv in [Conv::From { by_ref: false }, Conv::From { by_ref: true }, Conv::TryFrom { by_ref: false }, Conv::TryFrom { by_ref: true }] {
+        for via in [pu8(), opt(pu8())] {
+            let mut s = base3();
+            s.fields[1].ty = via.clone();
+            s.fields[1].conv = conv;
+            s.fields[1].conv_opt_decl = true;
+            let i = cat.add(Item::Struct(s));
+            cat.root(p(Ty::Item(i)), "H", format!("{conv:?} into a field declared Option<Cv>, intermediate {}", if via == pu8() { "P<u8>" } else { "Option<P<u8>>" }));
+        }
+    }
+    {
+        let mut e = tagged_enum("kind");
+        let fs = e.variants[1].fields.as_mut().unwrap();
+        fs[0].ty = opt(pu8());
+        fs[0].conv = Conv::TryFrom { by_ref: false };
+        fs[0].conv_opt_decl = true;
+        let i = cat.add(Item::Enum(e));
+        cat.root(p(Ty::Item(i)), "H", "tagged variant with try_from into a field declared Option<Cv>");
+    }
+    // a field renamed to another field's identifier / to keys that differ only by case or by
+    // Unicode normalisation
+    for deny in [Deny::No, Deny::Default] {
+        let mut s = base3();
+        s.fields[0].rename = Some("fbCap".into());
+        s.fields[1].rename = Some("ren_b".into());
+        s.deny = deny;
+        let i = cat.add(Item::Struct(s));
+        cat.root(p(Ty::Item(i)), "H", format!("field renamed to its neighbour's identifier, {deny:?}"));
+        let mut s = base3();
+        s.rename_all = Some(RenameAll::Camel);
+        s.fields[2].rename = Some("fa_x".into());
+        s.deny = deny;
+        let i = cat.add(Item::Struct(s));
+        cat.root(p(Ty::Item(i)), "H", format!("camelCase + a field renamed to the first field's identifier, {deny:?}"));
+        let mut s = base3();
+        for (f, r) in s.fields.iter_mut().zip(["name", "Name", "NAME"]) {
+            f.rename = Some(r.to_string());
+        }
+        s.deny = deny;
+        let i = cat.add(Item::Struct(s));
+        cat.root(p(Ty::Item(i)), "H", format!("keys differing only by case, {deny:?}"));
+        let mut s = base3();
+        s.fields[0].rename = Some("\u{e9}".into());
+        s.fields[1].rename = Some("e\u{301}".into());
+        s.deny = deny;
+        let i = cat.add(Item::Struct(s));
+        cat.root(p(Ty::Item(i)), "H", format!("keys differing only by Unicode normalisation, {deny:?}"));
     }
     // foreign errors from custom functions: nested, and next to a field-level error type
     {
